@@ -14,6 +14,8 @@ import os
 import sys
 
 REPO_SRC = os.environ.get("PVC_REPO_SRC", "/repo/src")
+if REPO_SRC not in sys.path:
+    sys.path.insert(0, REPO_SRC)  # the working tree under analysis shadows any installed copy, for every import
 
 _mod_cache = {}
 _overrides = {}  # module name -> source text (canaries: in-memory patches of the real source)
